@@ -364,12 +364,12 @@ theorem exonScope_of (t : Transcript) (h : WFT t)
     rw [List.all_eq_true] at h2
     simpa using h2 b hb
 
-theorem introns_ok (t : Transcript) (h : WFT t) :
+theorem introns_ok (t : Transcript) (h : WFT t) (hne : noEmptyBlock t.exons.blocks = true) :
     okIntrons (specOf t) (ans t.chromosomeGapsLocation) = true := by
   unfold okIntrons
-  by_cases hsc : (txScope (specOf t) && noEmptyBlock (specOf t).E.blocks) = true
+  by_cases hsc : txScope (specOf t) = true
   · simp only [hsc, not_true_eq_false, if_false]
-    have hscope := exonScope_of t h hsc
+    have hscope := exonScope_of t h (by rw [Bool.and_eq_true]; exact ⟨hsc, hne⟩)
     have hE : (specOf t).E = t.exons := rfl
     rw [hE]
     generalize hbs : t.exons = E at *
@@ -433,5 +433,10 @@ theorem introns_ok (t : Transcript) (h : WFT t) :
         | cons _ _ => rfl
       simp [utrShapeOk, wfLocation, hcanon, locationStrand?, locationBases, hsn, hwne]
   · simp [hsc]
+
+/-- F-C06a: a zero-length first exon — the modelled `gap_list` reports no intron -/
+theorem gaps_zero_length_first_exon : gapsLocation ⟨[(0, 0), (3, 5)], .plus⟩ = .ok .empty := by
+  simp [gapsLocation, gapList, optimizeLoc, combineLoop, mkCompoundLoc, sortBlocks, blocksValid, toSingleIfOne,
+    bind, Except.bind, pure, Except.pure]
 
 end BioCantor.Proofs
